@@ -55,7 +55,8 @@ META = {
     "by running the real Falcon app on every single-bit flip / truncation / swap of real tokens.",
     "level_note": "partial: cryptographic strength (unforgeability, confidentiality) of XChaCha20-Poly1305 is a premise, checked "
     "only empirically against the real cipher on the mutation set; zstd and SHA-256 are parameters; base64 is modelled "
-    "from CPython's strict decoder and validated by correspondence; call token judged on the cache-miss path only (C14).",
+    "from CPython's strict decoder and validated by correspondence (decode . encode = id is a theorem for all byte "
+    "strings); call token judged on the cache-miss path only (C14).",
     "design_ref": "§5 C12",
 }
 
@@ -269,7 +270,8 @@ def run(ctx: Any) -> None:
                 "C12_aad_injective", "C12_cursor_call_not_interchangeable", "C12_layout_total", "C12_parse_cursor_exact",
                 "C12_parse_call_exact", "C12_cursor_served_only_if_minted", "C12_call_served_only_if_minted_cold",
                 "C12_reject_before_hooks", "C12_uniform_400", "C12_reject_classes", "C12_auth_failures_indistinguishable",
-                "C12_served_text_is_canonical", "C12_normalize_key_injective",
+                "C12_served_text_is_canonical", "C12_canonical_texts_exactly_encodings", "C12_armour_roundtrip",
+                "C12_normalize_key_injective",
             ],
             "T_Token": ["layouts_tie", "constants_tie", "raise_sites_tie", "C12_source_aad_injective", "C12_source_plaintexts_decodable"],
         },
